@@ -102,7 +102,10 @@ class Exec(X.PyExec):
         """element of np.array([...], dtype) read back as a numpy scalar of that dtype"""
         if dtype in ("float64", "float32"):
             t, isr = self.num(e)
-            return Sym(t if isr else z3.ToReal(t), "float")
+            t = t if isr else z3.ToReal(t)
+            if dtype == "float32":
+                t = FLOAT32(t)  # rounded to single precision: not the value that was given
+            return Sym(t, "float")
         if dtype == "infer":
             t, isr = self.num(e)
             if isinstance(e, Sym) and e.dtype.startswith("uint"):
@@ -175,6 +178,11 @@ def counter_method(ex, name, selfv, args, kwargs, st):
         if pairs is None:
             raise Unsupported("items() of a Counter built by stores")
         return [("val", list(pairs), st)]
+    if name == "counter.clear":
+        st.objs[selfv.oid]["fields"]["$entries"] = ()
+        st.objs[selfv.oid]["fields"].pop("$pairs", None)
+        st.effects.append(("counter-clear", selfv.oid))
+        return [("val", Const(None), st)]
     if name == "counter.most_common":
         st.effects.append(("most_common", selfv.oid, args[0] if args else None))
         r = Opaque("most_common")
